@@ -78,7 +78,7 @@ struct Api {
         return "general";
     }
 
-    static void set_default(V& v, std::size_t i)
+    static constexpr void set_default(V& v, std::size_t i)
     {
         if constexpr (basic) {
             v.unchecked_set(i);
@@ -86,7 +86,7 @@ struct Api {
             v.set(i);
         }
     }
-    static V& set_value(V& v, std::size_t i, bool x)
+    static constexpr V& set_value(V& v, std::size_t i, bool x)
     {
         if constexpr (basic) {
             return v.unchecked_set(i, x);
@@ -94,7 +94,7 @@ struct Api {
             return v.set(i, x);
         }
     }
-    static V& reset_bit(V& v, std::size_t i)
+    static constexpr V& reset_bit(V& v, std::size_t i)
     {
         if constexpr (basic) {
             return v.unchecked_reset(i);
@@ -102,7 +102,7 @@ struct Api {
             return v.reset(i);
         }
     }
-    static V& flip_bit(V& v, std::size_t i)
+    static constexpr V& flip_bit(V& v, std::size_t i)
     {
         if constexpr (basic) {
             return v.unchecked_flip(i);
@@ -110,7 +110,7 @@ struct Api {
             return v.flip(i);
         }
     }
-    static bool test(V const& v, std::size_t i)
+    static constexpr bool test(V const& v, std::size_t i)
     {
         if constexpr (basic) {
             return v.unchecked_test(i);
@@ -374,6 +374,54 @@ std::vector<typename A::M> seed_values()
     push(odd);
     push(lo);
     push(hi);
+    return out;
+}
+
+/// seeds for configurations with many storage words (N >= 256): the boundary patterns, and single bits around the first
+/// two and last two word edges and around bit 255/256 (where an 8-bit counter or index would wrap)
+template <typename A>
+std::vector<typename A::M> wide_seed_values()
+{
+    using M = typename A::M;
+    std::vector<M> out;
+    auto push = [&](M const& x) {
+        if (x.none()) { return; }
+        for (auto const& y : out) {
+            if (y == x) { return; }
+        }
+        out.push_back(x);
+    };
+    M ones;
+    ones.set();
+    push(ones);
+    std::set<long> ps;
+    long const n  = long(A::N);
+    long const wb = long(A::wb);
+    long const lw = ((n - 1) / wb) * wb; // first bit of the last word
+    for (long p : {0L, 1L, wb - 1, wb, wb + 1, 2 * wb - 1, 2 * wb, 254L, 255L, 256L, 257L, lw - wb - 1, lw - wb, lw - 1, lw, lw + 1, n - 2, n - 1}) {
+        if (p >= 0 && p < n) { ps.insert(p); }
+    }
+    for (long p : ps) {
+        M x;
+        x.set(std::size_t(p));
+        push(x);
+    }
+    M even, odd, lo, hi, altwords, lastword, allbutlast;
+    for (std::size_t i = 0; i < A::N; ++i) {
+        if (i % 2 == 0) { even.set(i); }
+        if (i % 2 == 1) { odd.set(i); }
+        if (i < A::N / 2) { lo.set(i); }
+        if (i >= A::N / 2) { hi.set(i); }
+        if ((i / A::wb) % 2 == 0) { altwords.set(i); }
+        if (long(i) >= lw) { lastword.set(i); } else { allbutlast.set(i); }
+    }
+    push(even);
+    push(odd);
+    push(lo);
+    push(hi);
+    push(altwords);
+    push(lastword);
+    push(allbutlast);
     return out;
 }
 
@@ -757,6 +805,15 @@ void sweep_ull(mc::Reporter& r)
     for (auto p : {0xAAAAAAAAAAAAAAAAULL, 0x5555555555555555ULL, 0xFFFFFFFF00000000ULL, 0x00000000FFFFFFFFULL, 0xFF00FF00FF00FF00ULL, 0x8000000180000001ULL}) {
         vals.push_back(p);
     }
+    if constexpr (A::N < 64) {
+        // exactly one bit at or above the width on an empty / full / alternating background below the width
+        unsigned long long const below = (1ULL << A::N) - 1ULL;
+        for (std::size_t k = A::N; k < 64; ++k) {
+            vals.push_back((1ULL << k) | below);
+            vals.push_back((1ULL << k) | (below & 0x5555555555555555ULL));
+            vals.push_back((1ULL << k) | (1ULL << (A::N - 1)));
+        }
+    }
     auto const subj = cat(A::family(), "::", A::family(), "(unsigned long long)");
     for (auto const val : vals) {
         char const* const cls = wider<A::N>(val) ? "value_wider_than_bitset" : A::padcls();
@@ -773,16 +830,24 @@ void sweep_ull(mc::Reporter& r)
 }
 
 /// every single-bit operation at every position from every seed (large widths)
-template <typename A>
+template <typename A, bool Wide = false>
 void sweep_positions(mc::Reporter& r)
 {
     using V          = typename A::V;
     using M          = typename A::M;
     auto const seeds = [] {
-        auto s = seed_values<A>();
+        auto s = Wide ? wide_seed_values<A>() : seed_values<A>();
         s.insert(s.begin(), M{});
         return s;
     }();
+    // wide configurations: b[i] = b[j] with at least one of the two positions at a word edge / the 255-256 boundary
+    std::vector<char> edge(A::N, Wide ? 0 : 1);
+    if (Wide) {
+        for (std::size_t i = 0; i < A::N; ++i) {
+            auto const o = i % A::wb;
+            if (o == 0 || o + 1 == A::wb || i + 2 >= A::N || (i >= 254 && i <= 257)) { edge[i] = 1; }
+        }
+    }
     auto const f = A::family() + "::";
     static char const* const names[] = {"set(pos)", "set(pos,false)", "set(pos,true)", "reset(pos)", "flip(pos)", "b[pos]=false", "b[pos]=true", "b[pos].flip()"};
     std::string const subjects[8]    = {f + (A::basic ? "unchecked_set(pos)" : "set(pos)"), f + A::n_set(), f + A::n_set(), f + A::n_reset(), f + A::n_flip(),
@@ -823,6 +888,7 @@ void sweep_positions(mc::Reporter& r)
         if (seed.count() < 2 || seed.all()) { continue; }
         for (std::size_t i = 0; i < A::N; ++i) {
             for (std::size_t j = 0; j < A::N; ++j) {
+                if (!edge[i] && !edge[j]) { continue; }
                 auto const* c = i == j ? "self" : A::poscls(i);
                 run_case(r, subj, c, [&] { return cat(A::name(), ": seed ", seed.to_string(), " => b[", i, "] = b[", j, "]"); }, [&](Cx& cx) {
                     V v;
@@ -877,7 +943,7 @@ void string_cases(mc::Reporter& r, std::vector<std::basic_string<Char>> const& t
     using Str  = std::basic_string<Char>;
     auto npos  = std::size_t(-1);
     static_assert(SV::npos == std::size_t(-1));
-    char const* cn = std::is_same_v<Char, char> ? "char" : "wchar_t";
+    char const* cn = std::is_same_v<Char, char> ? "char" : (std::is_same_v<Char, wchar_t> ? "wchar_t" : (std::is_same_v<Char, char8_t> ? "char8_t" : (std::is_same_v<Char, char16_t> ? "char16_t" : "char32_t")));
     for (auto const& cs : sets) {
         for (auto const& pattern : texts) {
             // pattern is over {'0','1'}; translate
@@ -889,6 +955,9 @@ void string_cases(mc::Reporter& r, std::vector<std::basic_string<Char>> const& t
                 std::vector<std::size_t> ns;
                 if (allWindows) {
                     for (std::size_t n = 0; n <= L - pos + 1; ++n) { ns.push_back(n); }
+                    ns.push_back(L + 7);
+                    ns.push_back(npos - 1);
+                    if (pos != 0) { ns.push_back(npos - pos + 1); } // pos + n wraps to 0
                 } else {
                     // the rest of the string, exactly N characters, one less, nothing
                     ns.push_back(L - pos);
@@ -1061,9 +1130,12 @@ void add_basic(mc::Main& m)
 
 } // namespace
 
+#include "c17_extra.hpp"
+
 int main(int argc, char** argv)
 {
     mc::Main m(argc, argv);
+    add_round2_parts(m);
 #if !defined(MC_PART) || MC_PART == 1
     add_closure<1, void>(m, both);
     add_closure<2, void>(m, both);
